@@ -35,6 +35,12 @@ pub struct DCfg {
     pub actors: Vec<Actor>,
     pub stall: Option<(usize, u8)>,
     pub perturb: u8,
+    /// iterator consumer pauses this long once stop() has been invoked (ms; 0 = never)
+    pub slow_consumer_ms: u64,
+    /// a channeled subscriber's callback unsubscribes another channeled subscriber
+    pub cross_unsub: Option<(usize, u8, u32)>,
+    /// long stall (ms) while a BlockOnFull channeled subscriber is parked and its channel is full
+    pub long_stall_ms: u64,
 }
 
 pub fn gen(rng: &mut Rng, tiny: bool, focus: &str) -> DCfg {
@@ -78,9 +84,25 @@ pub fn gen(rng: &mut Rng, tiny: bool, focus: &str) -> DCfg {
             seen_iter = true;
         }
     }
-    let stall = if (focus == "C10" && rng.chance(1, 2)) || rng.chance(1, 8) { Some((rng.range(1, 3) as usize, rng.range(1, 2) as u8)) } else { None };
+    let stall = if (focus == "C10" && rng.chance(1, 2)) || rng.chance(1, 8) { Some((rng.range(1, 3) as usize, rng.below(3) as u8)) } else { None };
+    let has_iter = actors.iter().any(|a| a.kind == 3);
+    let slow_consumer_ms = if !has_iter || stall.is_some() {
+        0
+    } else if cfg!(miri) {
+        if rng.chance(1, 2) { 1500 } else { 0 }
+    } else if !tiny && rng.chance(1, if focus == "C14" { 300 } else { 900 }) {
+        *rng.pick(&[300u64, 700, 1300])
+    } else {
+        0
+    };
+    let cross_unsub = if slow_consumer_ms == 0 && ((focus == "C10" && rng.chance(1, 3)) || rng.chance(1, 10)) { Some((rng.range(1, 3) as usize, rng.below(3) as u8, rng.range(1, 5) as u32)) } else { None };
+    let long_stall_ms = match stall {
+        Some((_, POL_BLOCK)) if cfg!(miri) => 40_000,
+        Some((_, POL_BLOCK)) if !tiny && rng.chance(1, 300) => *rng.pick(&[1100u64, 2300, 3600]),
+        _ => 0,
+    };
     DCfg {
-        policy: if stall.is_some() || rng.chance(5, 6) { POL_BLOCK } else { rng.range(1, 2) as u8 },
+        policy: if stall.is_some() || cross_unsub.is_some() || rng.chance(5, 6) { POL_BLOCK } else { rng.range(1, 2) as u8 },
         cap: *rng.pick(&[1usize, 2, 5, 16]),
         n_red: rng.range(1, 2) as u32,
         n_prod,
@@ -89,6 +111,9 @@ pub fn gen(rng: &mut Rng, tiny: bool, focus: &str) -> DCfg {
         actors,
         stall,
         perturb: rng.below(3) as u8,
+        slow_consumer_ms,
+        cross_unsub,
+        long_stall_ms,
     }
 }
 
@@ -116,7 +141,9 @@ pub fn describe(c: &DCfg) -> J {
                 })
                 .collect()),
         ),
-        ("stalled_channeled", c.stall.map(|(cap, p)| J::s(format!("cap {} {} gated until all actions notified", cap, POL_NAMES[p as usize]))).unwrap_or(J::Null)),
+        ("stalled_channeled", c.stall.map(|(cap, p)| J::s(format!("cap {} {} parked at a gate{}", cap, POL_NAMES[p as usize], if c.long_stall_ms > 0 { format!(", long stall {} ms", c.long_stall_ms) } else { String::new() }))).unwrap_or(J::Null)),
+        ("slow_consumer_ms", J::U(c.slow_consumer_ms)),
+        ("cross_unsubscribe", c.cross_unsub.map(|(cap, p, n)| J::s(format!("channeled X unsubscribes channeled Y (cap {} {}) from inside its {}-th on_notify", cap, POL_NAMES[p as usize], n))).unwrap_or(J::Null)),
         ("perturb", J::U(c.perturb as u64)),
     ])
 }
@@ -186,6 +213,42 @@ pub fn execute(c: &DCfg, seed: u64) -> W {
         w.set_twin(id, t.0);
         stall_keep = Some((sn, t));
     }
+    let mut cross_keep = None;
+    let cross_done = Arc::new(Counter::new());
+    if let Some((cap, pol, nth)) = c.cross_unsub {
+        // Y: slow channeled subscriber (+ twin); X: channeled subscriber whose callback unsubscribes Y
+        let (yid, ysn) = w.add_channeled_sub(0, cap, pol, true, |sub| {
+            sub.hook = Some(Arc::new(|c: &Arc<Ctx>, _st: &St, _a: &Act| {
+                if !cfg!(miri) {
+                    std::thread::sleep(std::time::Duration::from_micros(40));
+                }
+                c.perturb();
+            }));
+        });
+        let ty = w.add_direct(0, NOGATE, false, true, false);
+        w.set_twin(yid, ty.0);
+        let cell: Arc<std::sync::Mutex<Option<Box<dyn rs_store::Subscription>>>> = Arc::new(std::sync::Mutex::new(Some(ysn)));
+        let seen = Arc::new(std::sync::atomic::AtomicU32::new(0));
+        let nth = nth.min(notifying as u32);
+        let (xid, xsn) = w.add_channeled_sub(0, 4, POL_BLOCK, true, |sub| {
+            let cell = cell.clone();
+            let seen = seen.clone();
+            let cross_done = cross_done.clone();
+            sub.hook = Some(Arc::new(move |c: &Arc<Ctx>, _st: &St, _a: &Act| {
+                if seen.fetch_add(1, std::sync::atomic::Ordering::Relaxed) + 1 == nth {
+                    if let Some(sn) = cell.lock().unwrap().take() {
+                        c.ev(K::UInv, 0, 0, yid, 0, 0, 0);
+                        sn.unsubscribe();
+                        c.ev(K::URet, 0, 0, yid, 0, 0, 0);
+                    }
+                    cross_done.add(1);
+                }
+            }));
+        });
+        let tx = w.add_direct(0, NOGATE, false, true, false);
+        w.set_twin(xid, tx.0);
+        cross_keep = Some((xsn, ty, tx, cell));
+    }
     std::thread::scope(|sc| {
         let mut hs = Vec::new();
         for (p, prog) in progs.iter().enumerate() {
@@ -199,6 +262,7 @@ pub fn execute(c: &DCfg, seed: u64) -> W {
                 }
             }).unwrap());
         }
+
         let mut ahs = Vec::new();
         let mut consumers = Vec::new();
         for (i, a) in c.actors.iter().enumerate() {
@@ -220,7 +284,15 @@ pub fn execute(c: &DCfg, seed: u64) -> W {
                 registered.add(1);
                 if let Some(mut it) = it {
                     // iterator consumer: read to the end, then twice more, then drop
+                    let mut paused = c.slow_consumer_ms == 0;
                     loop {
+                        if !paused && returned.get() >= total {
+                            // producers are done: from here on pause once, after stop() has been invoked,
+                            // with (possibly) an unread pair sitting in the iterator's channel
+                            paused = true;
+                            crate::fam_a::wait_until(|| crate::fam_a::count_kind(w, K::StopInv, STOP_STOP) >= 1);
+                            std::thread::sleep(std::time::Duration::from_millis(c.slow_consumer_ms));
+                        }
                         w.ctx.ev(K::ItInv, 0, 0, id, 0, 0, 0);
                         let x = it.next();
                         match x {
@@ -259,10 +331,24 @@ pub fn execute(c: &DCfg, seed: u64) -> W {
                 ahs.push(h);
             }
         }
+        if let Some((cap, POL_BLOCK)) = c.stall {
+            // BlockOnFull subscriber parked at the gate: the reducer blocks once the channel is full
+            // (cap queued + one in the subscriber's hands); producers then block on the store queue.
+            // The twin sees cap+1 notifications at most until the gate opens.
+            let need = notifying.min(cap as u64 + 1);
+            if !stall_counter.wait_at_least(need, 20) {
+                give_up(3);
+            }
+            if c.long_stall_ms > 0 {
+                std::thread::sleep(std::time::Duration::from_millis(c.long_stall_ms));
+            }
+            w.mark(MARK_STALL_DONE, need);
+            w.ctx.gates[1].open();
+        }
         for h in hs {
             h.join().unwrap();
         }
-        if c.stall.is_some() {
+        if matches!(c.stall, Some((_, p)) if p != POL_BLOCK) {
             // the stalled drop-policy subscriber must not stall reducing: every notifying action
             // reaches its twin while the gate is still closed
             if !stall_counter.wait_at_least(notifying, 20) {
@@ -274,6 +360,11 @@ pub fn execute(c: &DCfg, seed: u64) -> W {
         let mut keep = Vec::new();
         for h in ahs {
             keep.push(h.join().unwrap());
+        }
+        // a callback that calls unsubscribe() must not overlap the shutdown (it would wait for the
+        // subscribers lock while clear_subscribers joins its thread): let it finish first
+        if c.cross_unsub.is_some() && notifying > 0 && !cross_done.wait_at_least(1, 20) {
+            give_up(4);
         }
         // every iterator is created before stop() is invoked (C14 quantifies over those only)
         registered.wait_at_least(c.actors.len() as u64, 30);
@@ -287,6 +378,7 @@ pub fn execute(c: &DCfg, seed: u64) -> W {
     });
     drop(sentinel);
     drop(stall_keep);
+    drop(cross_keep);
     w
 }
 
@@ -471,7 +563,7 @@ pub fn c10(h: &Hist, s: u8, v: &mut Verdicts) {
                 v.fail("C10", format!("store {}: channeled subscribers {} and {} share thread t{}", s, other, si.id, t0));
             }
             // a client thread must not be the delivery thread either
-            if h.evs.iter().any(|e| e.tid == t0 && matches!(e.k, K::DInv | K::AddInv | K::StopInv | K::UInv)) {
+            if h.evs.iter().any(|e| e.tid == t0 && matches!(e.k, K::DInv | K::AddInv | K::StopInv)) {
                 v.fail("C10", format!("store {}: channeled subscriber {} was called on a client thread (t{})", s, si.id, t0));
             }
         }
@@ -747,5 +839,6 @@ pub fn run(seed: u64, tiny: bool, focus: &str) -> Outcome {
     c14(&h, 0, &mut v);
     c16(&h, 0, &mut v);
     c03(&h, 0, &mut v);
+    c07(&h, 0, &mut v);
     Outcome::new(describe(&c), h, v)
 }
